@@ -166,12 +166,30 @@ def solve_smt2(args):
     t0 = time.time()
     out = {"status": "unknown", "backend": None, "time_s": 0.0, "model": None, "reason": ""}
     try:
+        base_rl = 0
+        try:
+            s0 = z3.Solver()
+            s0.add(z3.Int("rl!probe") > 0)
+            s0.check()
+            st0 = s0.statistics()
+            for i_ in range(len(st0)):
+                if st0[i_][0] == "rlimit count":
+                    base_rl = int(st0[i_][1])
+        except Exception:
+            pass
         s = z3.Solver()
         s.set("rlimit", RLIMIT)
         s.set("timeout", tmo)
         s.from_string(smt2)
         r = s.check()
         out["backend"] = "z3-" + z3.get_version_string()
+        try:
+            st_ = s.statistics()
+            for i_ in range(len(st_)):
+                if st_[i_][0] == "rlimit count":
+                    out["rlimit"] = int(st_[i_][1]) - base_rl
+        except Exception:
+            pass
         if r == z3.unsat:
             out["status"] = "discharged"
         elif r == z3.sat:
@@ -269,9 +287,11 @@ def verify(names, pid=None, canaries=False, lock=None):
             g = generate(name)
         except LookupError as ex:
             res["undecided"].append(f"unattached: {name}: {ex}")
+            res.setdefault("unreached", []).append(name)
             continue
         except E.Unsupported as ex:
             res["undecided"].append(f"out of reach: {name}: {ex}")
+            res.setdefault("unreached", []).append(name)
             continue
         eng = g["engine"]
         res["functions"].append(g["info"])
@@ -300,7 +320,7 @@ def verify(names, pid=None, canaries=False, lock=None):
                 except Exception as ex:  # noqa
                     res["errors"].append(f"canary {name}/{label}: {ex}")
                     continue
-                ctasks = [(o.name, to_smt2(o.hyps, o.goal, gc["engine"].axioms), []) for o in gc["obs"]
+                ctasks = [(o.name, to_smt2(o.hyps, o.goal, gc["engine"].axioms), [], 4000) for o in gc["obs"]
                           if o.kind in ("post", "raises")]
                 tasks.append((f"{name}#canary.{label}", ctasks, []))
                 meta.append(("canary", name, label, gc["engine"]))
@@ -324,7 +344,9 @@ def verify(names, pid=None, canaries=False, lock=None):
         else:
             index.append((i, len(flat)))
             flat.append(t)
-    results = fw.pmap(solve_smt2, flat, chunksize=1)
+    # one fresh process per query: z3's resource counter is then per query and results do not depend
+    # on what the worker solved before
+    results = fw.pmap(solve_smt2, flat, chunksize=1, fresh_process_per_item=True)
     per_task = {}
     for (ti, fi) in index:
         per_task.setdefault(ti, []).append(results[fi])
@@ -370,17 +392,53 @@ def verify(names, pid=None, canaries=False, lock=None):
         if n:
             nm = f"{nm}~path{n}"
         rec = {"name": nm, "function": fname, "status": r["status"], "backend": r["backend"],
-               "time_s": r["time_s"], "kind": ob.kind, "line": ob.line}
+               "time_s": r["time_s"], "kind": ob.kind, "line": ob.line, "rlimit": r.get("rlimit"),
+               "reason": r.get("reason", "")[:300] if r["status"] != "discharged" else ""}
         res["obligations"].append(rec)
         if r["status"] == "refuted":
             rec["model"] = r["model"]
             v = make_violation(fname, nm, ob, r, pid)
             res["violations"].append(v)
         elif r["status"] == "unknown":
-            res["undecided"].append(f"{nm}: {r['reason'][:200]}")
+            base = nm.split("~")[0]
+            lk = (lock or {}).get(fname)
+            info = next((f for f in res["functions"] if f["name"] == fname), {})
+            if lk and base in lk.get("discharged", []) and lk.get("sha256") != info.get("sha256"):
+                # passed on the unchanged tree, the function's source has changed, and the obligation
+                # no longer discharges: reported as a violation with the solver's reason attached
+                v = make_violation(fname, nm, ob, r, pid)
+                res["violations"].append(v)
+            else:
+                res["undecided"].append(f"{nm}: {r['reason'][:200]}")
     if lock is not None:
         check_lock(res, lock)
     return res
+
+
+LOCK_FILE = os.path.join(fw.ROOT, "contracts", "LOCK.json")
+
+
+def load_lock():
+    import json
+    if os.path.exists(LOCK_FILE):
+        return json.load(open(LOCK_FILE))
+    return {}
+
+
+def write_lock(names):
+    """Hand tool (tools/relock.py): record, for the UNCHANGED tree, the source hash and the discharged
+    obligation names of every function under contract."""
+    import json
+    r = verify(names)
+    lock = load_lock()
+    for f in r["functions"]:
+        obs = sorted({o["name"].split("~")[0] for o in r["obligations"]
+                      if o["function"] == f["name"] and o["status"] == "discharged" and o.get("kind") not in
+                      ("vacuity", "lemma-proof")})
+        lock[f["name"]] = {"sha256": f["sha256"], "discharged": obs}
+    with open(LOCK_FILE, "w") as fh:
+        json.dump(lock, fh, indent=1, sort_keys=True)
+    return r
 
 
 def make_violation(fname, obname, ob, r, pid):
@@ -388,7 +446,8 @@ def make_violation(fname, obname, ob, r, pid):
     recipe; otherwise report with no-failing-input-found and the solver's model."""
     c = REG[fname]
     found = False
-    detail = {"obligation": obname, "line": ob.line, "model": r["model"]}
+    detail = {"obligation": obname, "line": ob.line, "model": r["model"], "solver_status": r["status"],
+              "solver_reason": r.get("reason", "")[:400]}
     case = {"family": "proof", "function": fname}
     if c.replay is not None:
         try:
@@ -410,14 +469,23 @@ def check_lock(res, lock):
     silently stops producing its postcondition obligation is an error, not a pass)."""
     have = {}
     for o in res["obligations"]:
-        base = o["name"].split("~")[0].split("@")[0]
-        have.setdefault(o["function"], set()).add(base)
-    for fn, names in lock.items():
+        have.setdefault(o["function"], set()).add(o["name"].split("~")[0])
+    shas = {f["name"]: f["sha256"] for f in res["functions"]}
+    for fn, lk in lock.items():
         if fn not in have:
             continue
-        for nmx in names:
+        for nmx in lk.get("discharged", []):
             if nmx not in have[fn]:
-                res["errors"].append(f"lock: obligation {nmx} is no longer generated")
+                # line numbers are part of obligation names: compare modulo the @L suffix and the
+                # ghost counter when the function's text moved
+                stem = nmx.split("@")[0].split("#ghost")[0]
+                if any(h.split("@")[0].split("#ghost")[0] == stem for h in have[fn]):
+                    continue
+                if shas.get(fn) != lk.get("sha256"):
+                    res["undecided"].append(f"unattached: obligation {nmx} is no longer generated after a "
+                                            f"change of {fn} (contract anchor lost)")
+                else:
+                    res["errors"].append(f"lock: obligation {nmx} is no longer generated")
 
 
 def replay(d):
@@ -434,3 +502,34 @@ def replay(d):
         return 1
     print("not reproduced (obligation discharged or no longer generated)")
     return 0
+
+
+def attach_companion_witnesses(pres, comp):
+    """If an obligation of function f is violated and f's concrete companion found a failing input,
+    attach that input as the natively replayed witness.  A function whose contract no longer attaches
+    (out of the engine's subset after an edit, or anchor lost) but whose clauses are all exercised by a
+    silent concrete companion is decided by that bounded companion: recorded, not 'undecided'."""
+    if not comp:
+        return
+    covers = set(comp.get("covers", []))
+    failing = {vv[0].replace("companion.", "") for vv in comp.get("violations", [])}
+    keep = []
+    for u in pres["undecided"]:
+        fn = next((f for f in pres.get("unreached", []) if f in u), None)
+        short = ".".join(fn.split(".")[-2:]) if fn else None
+        if fn and short in covers and short not in failing:
+            pres.setdefault("covered_by_bounded", []).append(u)
+        else:
+            keep.append(u)
+    pres["undecided"] = keep
+    byfn = {}
+    for vv in comp.get("violations", []):
+        byfn.setdefault(vv[0].replace("companion.", ""), []).append(vv)
+    for v in pres["violations"]:
+        fn = v.key.get("function", "")
+        short = ".".join(fn.split(".")[-2:])
+        hits = byfn.get(short) or []
+        if hits and not v.found_input:
+            v.found_input = True
+            v.detail["native_replay"] = {"reproduced": True, "companion": hits[0][0], "input": hits[0][1],
+                                         "observed": hits[0][2]}
